@@ -4,4 +4,4 @@
 From Coq Require Import Extraction ExtrOcamlBasic.
 From NV Require Import Rec.FreeVars Rec.Lang Rec.Spec Rec.Mech.
 Extraction "c07_fv.ml" all_deps collect.
-Extraction "c07_mech.ml" irun ifields cfg_real cfg_unknown srun sfield skeys vars.
+Extraction "c07_mech.ml" irun ifields cfg_current cfg_fixed with_unknown srun sfield skeys vars.
